@@ -86,7 +86,7 @@ def gen_actrl(rng, p=0.35):
     if rng.random() < 0.3:      # accumulator indices need not be contiguous
         for r_ in rows:
             if r_[0] >= 0: r_[0] = r_[0] * 2 + 1
-    return {'rows': rows, 'plus3': rng.random() < 0.5, 'dtype': rng.choice(['int32', 'int32', 'int64', 'list'])}   # False: the documented shape (len(lines), 3)
+    return {'rows': rows, 'plus3': rng.random() < 0.5, 'dtype': rng.choice(['int32', 'int32', 'int64'])}      # (the documentation asks for an integer array; plain lists are not passed)   # False: the documented shape (len(lines), 3)
 
 
 ORDER_KINDS = ['random', 'random', 'random', 'reversed', 'lane_major', 'op_major', 'last_op_first', 'odd_even', 'canonical']
